@@ -8,18 +8,20 @@ from . import geo
 DIRS = 'uvw'
 
 
-def spec(kind, degs, mults, dim=None, rational=False, lo=0, hi=1, doms=None):
-    """doms: optional per-direction (lo, hi) knot domains (default: the same [lo, hi] everywhere)"""
+def spec(kind, degs, mults, dim=None, rational=False, lo=0, hi=1, doms=None, scaled=False):
+    """doms: optional per-direction (lo, hi) knot domains (default: the same [lo, hi] everywhere).
+    scaled: the control net is a fixed integer pattern times ONE symbolic factor `sc` > 0 (all sizes of the
+    geometry, from micro to huge, with a single variable: absolute tolerances in the code show up as forks on sc)"""
     degs = tuple(degs)
     doms = list(doms) if doms else [(lo, hi)] * len(degs)
     kvs = [fam.pattern(p, m, d[0], d[1]) for p, m, d in zip(degs, mults, doms)]
-    return dict(kind=kind, degs=degs, kvs=kvs, dim=dim or (2 if kind == 'curve' else 3), rational=rational, mults=tuple(mults), doms=doms)
+    return dict(kind=kind, degs=degs, kvs=kvs, dim=dim or (2 if kind == 'curve' else 3), rational=rational, mults=tuple(mults), doms=doms, scaled=scaled)
 
 
 def spec_name(sp):
     ends = [(k[0], k[-1]) for k in sp['kvs']]
     dom = '' if all(e == (0, 1) for e in ends) else (' dom[%s,%s]' % ends[0] if len(set(ends)) == 1 else ' dom' + 'x'.join('[%s,%s]' % e for e in ends))
-    return '%s p%s m%s %s%s' % (sp['kind'], ','.join(map(str, sp['degs'])), ','.join(str(m) for m in sp['mults']), 'rat' if sp['rational'] else 'nonrat', dom)
+    return '%s p%s m%s %s%s%s' % (sp['kind'], ','.join(map(str, sp['degs'])), ','.join(str(m) for m in sp['mults']), 'rat' if sp['rational'] else 'nonrat', dom, ' scaled' if sp.get('scaled') else '')
 
 
 def build(cx, sp, **kw):
@@ -29,8 +31,14 @@ def build(cx, sp, **kw):
     n = 1
     for s in sizes:
         n *= s
-    P = cx.points('P', n, sp['dim'])
-    W = cx.reals('w', n, positive=True) if sp['rational'] else None
+    if sp.get('scaled'):
+        sc = cx.real('sc', lo=0)
+        cx.assume(sc > 0)
+        P = [[sc * scaled_pattern(i, d, sizes) for d in range(sp['dim'])] for i in range(n)]
+        W = [cx.const(F(1 + (i * 3) % 4, 2)) for i in range(n)] if sp['rational'] else None
+    else:
+        P = cx.points('P', n, sp['dim'])
+        W = cx.reals('w', n, positive=True) if sp['rational'] else None
     if sp['kind'] == 'curve':
         obj = geo.make_curve(cx, degs[0], Ks[0], P, W, **kw)
     elif sp['kind'] == 'surface':
@@ -38,6 +46,22 @@ def build(cx, sp, **kw):
     else:
         obj = geo.make_volume(cx, degs, Ks, sizes, P, W, **kw)
     return obj, dict(K=Ks, P=P, W=W, sizes=sizes)
+
+
+def scaled_pattern(i, d, sizes):
+    """fixed, regular (no collapsed rows, no repeated points) integer control net used by `scaled` shapes"""
+    idx, r = [], i
+    for sz in reversed(list(sizes)):       # v fastest, then u, then w  ->  (..., u, v)
+        idx.append(r % sz)
+        r //= sz
+    if len(sizes) == 1:
+        u = idx[0]
+        return F([3 * u, (u * u) % 5 + u, (2 * u + 1) % 3][d])
+    if len(sizes) == 2:
+        v, u = idx[0], idx[1]
+        return F([4 * u + (v % 2), 3 * v + (u % 2), (u * v + u + 2 * v) % 4][d])
+    v, u, w = idx[0], idx[1], idx[2]
+    return F([4 * u + (v % 2), 3 * v + (w % 2), 5 * w + (u * v) % 3][d])
 
 
 def pdim(obj):
